@@ -4,12 +4,15 @@ import HcipyVerif.Lemmas.FourierSwitch
 /-!
 # C19 — results do not depend on the configured Field implementation (model level)
 
-All theorems are about the two interpreters of `Model/FieldProg.lean` (`runO`: ndarray-subclass
+The first half is about the two interpreters of `Model/FieldProg.lean` (`runO`: ndarray-subclass
 route, `runN`: wrapper route).  That these interpreters behave like hcipy's `OldStyleField` /
 `NewStyleField` on NumPy is *not* proved — NumPy's dispatch machinery is run-time behaviour — it is
-checked on every run by the four-way differential test of `harness/props/c19.py`.
-The Fourier switches (emulated shifts, MFT precomputation/allocation, FFT backend) have no model
-here: they are covered by the pipeline runs of the harness (and by C01 for the index arithmetic).
+checked on every run by the differential test of `harness/props/c19.py` (plain / old / new / mixed
+style / both model routes; the driver's `run` op executes `runO`, `runN`, `agree?`, `disagreeAt`).
+The second half (section `Fourier`) is about `Model/FourierSwitch.lean`: backend selection of
+`hcipy/_math/fft.py:_make_func` and the cache switches of `MatrixFourierTransform` /
+`NaiveFourierTransform` (driver ops `select`, `mft`, `nft`).  Emulated shifts have no model here (C01's
+index arithmetic covers them); memory order in pickles and views are checked on the real code only.
 -/
 set_option linter.unusedSimpArgs false
 set_option linter.unusedVariables false
